@@ -8,8 +8,14 @@ use crate::util::*;
 use dnssector::*;
 use serde_json::Value;
 
+/// The two error kinds the properties name are reported by kind, not by the wording of their message
+/// (C10 "reports 'too large'", C11 "reports a void record"); every other error by its text.
 fn err_text(e: &Error) -> String {
-    e.to_string()
+    match e.downcast_ref::<DSError>() {
+        Some(DSError::VoidRecord) => "Void record".to_string(),
+        Some(DSError::PacketTooLarge) => "Packet too large".to_string(),
+        _ => e.to_string(),
+    }
 }
 
 fn section_of(s: &str) -> Section {
